@@ -11,7 +11,7 @@
 From Coq Require Import ZArith Reals List Lra Lia.
 From FF Require Import Base.Ops Inst.RInst Base.RAlg Model.Numeric Model.Propagator Model.Periodic Model.Atomic
                        Model.Tie.C04 Proofs.MatAlg Proofs.AtomicAlg Proofs.Atomic Proofs.Propagator Proofs.Periodic
-                       Proofs.PeriodicScratch.
+                       Proofs.PeriodicScratch Proofs.PeriodicBound.
 From FF Require Import Inst.IInst Inst.Param Inst.EnclosureC02.
 Import ListNotations.
 Local Open Scope R_scope.
@@ -114,6 +114,37 @@ Proof. exact periodic_eq_scratch_pauli. Qed.
 Example C04_wf_piece_satisfiable : wf_piece ex_ns ex_p1.
 Proof. pose proof atomic_rule_hyps_satisfiable as H. inversion H. assumption. Qed.
 
+(* ---- error bound for the solve branch (the flag now comes from `nla.cond(M) < 1e8`): with a left inverse N of
+        1 - T and the residual R of whatever solve returned, S - sum T^g = N R; entrywise (|z| = |re z| + |im z|)
+        |S - sum T^g| <= n |N| |R|, i.e. (n |N| |M|) eps |S| for a residual of relative size eps, and the control
+        matrix inherits the bound ---- *)
+Theorem C04_solve_error_identity : forall n (Tf S N : fmat) G, feq n (fmul n N (fsub fid Tf)) fid ->
+  feq n (fsub S (fgeom n Tf G)) (fmul n N (fsub (fmul n (fsub fid Tf) S) (fsub fid (fpow n Tf G)))).
+Proof. exact solve_error_identity. Qed.
+Theorem C04_solve_error_bound : forall n (Tf S N : fmat) G nu rho, 0 <= nu ->
+  feq n (fmul n N (fsub fid Tf)) fid -> fbound n N nu ->
+  fbound n (fsub (fmul n (fsub fid Tf) S) (fsub fid (fpow n Tf G))) rho ->
+  fbound n (fsub S (fgeom n Tf G)) (INR n * (nu * rho)).
+Proof. exact solve_error_bound. Qed.
+Print Assumptions C04_solve_error_bound.
+Theorem C04_solve_error_bound_cond : forall n (Tf S N : fmat) G nu mu sigma eps, 0 <= nu ->
+  feq n (fmul n N (fsub fid Tf)) fid -> fbound n N nu -> fbound n (fsub fid Tf) mu -> fbound n S sigma ->
+  fbound n (fsub (fmul n (fsub fid Tf) S) (fsub fid (fpow n Tf G))) (eps * (mu * sigma)) ->
+  fbound n (fsub S (fgeom n Tf G)) ((INR n * (nu * mu)) * eps * sigma).
+Proof. exact solve_error_bound_cond. Qed.
+Theorem C04_cm_periodic_solve_error : forall n na no G ph cm L inv Ss (N : fmat) nu rho beta a k o,
+  (a < na)%nat -> (k < n)%nat -> (o < no)%nat -> length ph = no -> 0 <= nu -> 0 <= beta ->
+  nth o inv false = true ->
+  let Tf := toF (T_of RO n (nth o ph 0c) L) in
+  feq n (fmul n N (fsub fid Tf)) fid -> fbound n N nu ->
+  fbound n (toF (solve_residual RO n (T_of RO n (nth o ph 0c) L) (nth o Ss []) G)) rho ->
+  (forall j, (j < n)%nat -> cn1 (a3get RO cm a j o) <= beta) ->
+  cn1 (csub' (a3get RO (cm_periodic RO n na no G ph cm L inv Ss) a k o)
+             (a3get RO (atomic_repeated RO n na no G ph cm L) a k o))
+  <= INR n * (beta * (INR n * (nu * rho))).
+Proof. exact cm_periodic_solve_error. Qed.
+Print Assumptions C04_cm_periodic_solve_error.
+
 (* the full statement: whatever flags and whatever solve returns in floating point.  It is false for
    arbitrary oracle outputs (C04_singular_not_unique) and its floating-point version (accuracy of LAPACK
    near singular points) is outside the model; the plugin samples it.                                 *)
@@ -184,4 +215,23 @@ Proof.
   - apply left_inverse_cancel. exists (fscal (1/2, 1/2) fid).
     intros i j Hi Hj. destruct i as [|[|i]]; try lia; destruct j as [|[|j]]; try lia;
       unfold ex_L, ex_ph, ex_S; apply c_eq; simpl; unfold rget, vg, vget, nthv; simpl; field.
+Qed.
+
+(* the hypotheses of the error bound hold on the same example (left inverse (1+i)/2, exact solution: residual 0) *)
+Example C04_error_bound_hypotheses_satisfiable :
+  let Tf := toF (T_of RO 2 (nth 1 ex_ph 0c) ex_L) in
+  let N := fscal (1/2, 1/2) fid in
+  feq 2 (fmul 2 N (fsub fid Tf)) fid /\ fbound 2 N 1 /\
+  fbound 2 (toF (solve_residual RO 2 (T_of RO 2 (nth 1 ex_ph 0c) ex_L) ex_S 2)) 0.
+Proof.
+  intros Tf N. split; [|split].
+  - intros i j Hi Hj. destruct i as [|[|i]]; try lia; destruct j as [|[|j]]; try lia;
+      unfold ex_L, ex_ph, ex_S; apply c_eq; simpl; unfold rget, vg, vget, nthv; simpl; field.
+  - intros i j Hi Hj. destruct i as [|[|i]]; try lia; destruct j as [|[|j]]; try lia;
+      unfold N, cn1, fscal, fid; simpl;
+      repeat match goal with |- context [Rabs ?x] => let H := fresh in
+        assert (H : Rabs x <= 1/2) by (apply Rabs_le; lra); revert H; generalize (Rabs x); intros end; lra.
+  - destruct C04_hypotheses_satisfiable as [_ [_ [H _]]].
+    assert (H' : feq 2 (toF (solve_residual RO 2 (T_of RO 2 (nth 1 ex_ph 0c) ex_L) ex_S 2)) fzero) by exact H.
+    intros i j Hi Hj. rewrite (H' i j Hi Hj). unfold fzero. rewrite cn1_0. lra.
 Qed.
